@@ -495,6 +495,89 @@ def limits_family(run, r, n):
     return stats
 
 
+def interval_family(run, r, g, n):
+    """get_bounds_for_expr on random expressions over x restricted to a random interval (finite, asymmetric about 0 or
+    not, open / closed ends): every sampled value of the expression must lie in the returned interval."""
+    from integral import interval as IV
+    x = Var('x')
+    stats = dict(cases=0, bounded=0, samples=0)
+
+    def iexpr(d):
+        c = r.random()
+        if d <= 0 or c < 0.3:
+            return x if r.random() < 0.7 else Const(r.choice([1, 2, 3, Fraction(1, 2), -1, -2]))
+        k = r.choice(['+', '-', '*', 'neg', 'pow2', 'pow2', 'pow3', 'sqrt', 'exp', 'sin', 'cos', 'abs', 'inv', 'log'])
+        if k in '+-*':
+            return Op(k, iexpr(d - 1), iexpr(d - 1))
+        if k == 'neg':
+            return Op('-', iexpr(d - 1))
+        if k == 'pow2':
+            return Op('^', iexpr(d - 1), Const(2))
+        if k == 'pow3':
+            return Op('^', iexpr(d - 1), Const(3))
+        if k == 'inv':
+            return Op('/', Const(1), iexpr(d - 1))
+        return Fun(k, iexpr(d - 1))
+
+    def val(q):
+        return Const(q)
+    for _ in range(n):
+        e = iexpr(r.choice([1, 2, 2, 3]))
+        lo = Fraction(r.randint(-6, 4), r.choice([1, 2]))
+        hi = lo + Fraction(r.randint(1, 8), r.choice([1, 2]))
+        lopen, ropen = r.random() < 0.5, r.random() < 0.5
+        stats['cases'] += 1
+        try:
+            R = with_timeout(10, lambda: IV.get_bounds_for_expr(e, {x: IV.Interval(val(lo), val(hi), lopen, ropen)}))
+        except Alarm:
+            run.stat('interval_timeout')
+            continue
+        except RecursionError:
+            raise
+        except Exception as ex:
+            run.stat('interval_exc:' + type(ex).__name__)
+            continue
+        if R is None:
+            run.stat('interval:none')
+            continue
+        try:
+            mp.dps = 30
+            rs = -mpmath.inf if R.start == E.NEG_INF else (mpmath.inf if R.start == E.POS_INF else nev(R.start, {}))
+            re_ = mpmath.inf if R.end == E.POS_INF else (-mpmath.inf if R.end == E.NEG_INF else nev(R.end, {}))
+        except (Undefined, ZeroDivisionError, ValueError, OverflowError, TypeError):
+            run.stat('interval:bounds-not-evaluable')
+            continue
+        stats['bounded'] += 1
+        pts_ = [lo + (hi - lo) * Fraction(k_, 16) for k_ in range(1, 16)] + [lo + (hi - lo) * Fraction(1, 1000), hi - (hi - lo) * Fraction(1, 1000)]
+        if not lopen:
+            pts_.append(lo)
+        if not ropen:
+            pts_.append(hi)
+        if lo < 0 < hi:
+            pts_.append(Fraction(0))
+        bad = None
+        for q in pts_:
+            try:
+                v = nev(e, {'x': mpf(q.numerator) / mpf(q.denominator)})
+            except (Undefined, ZeroDivisionError, ValueError, OverflowError, TypeError):
+                continue
+            if isinstance(v, mpmath.mpc) or not mpmath.isfinite(v):
+                continue
+            stats['samples'] += 1
+            eps = mpf(10) ** -12 * (1 + abs(v))
+            if v < rs - eps or v > re_ + eps or (R.left_open and abs(v - rs) <= eps and v <= rs) and False:
+                bad = (q, v)
+                break
+        run.count(('interval', str(e), str(lo), str(hi), lopen, ropen), nontrivial=True)
+        if bad is not None:
+            run.violation('property', 'interval bounds do not enclose an attained value: %s for x in %s%s, %s%s is bounded by %s, but at x = %s the value is %s'
+                          % (e, '(' if lopen else '[', lo, hi, ')' if ropen else ']', R, bad[0], mpmath.nstr(bad[1], 15)),
+                          dict(expr=str(e), x_interval=[str(lo), str(hi), lopen, ropen], bounds=str(R), point=str(bad[0]), value=mpmath.nstr(bad[1], 20),
+                               reproduce='interval.get_bounds_for_expr(parser.parse_expr(expr), {Var("x"): Interval(Const(lo), Const(hi), left_open, right_open)})'),
+                          key='C19:interval-bounds')
+    return stats
+
+
 def check_deriv_numeric(run, e, d, where, pts, key):
     """d should be the derivative of e in x at the sample points where both are defined."""
     bad = []
@@ -704,6 +787,9 @@ def run_check(tier, seed):
 
     # ======== (3b) limits at infinity whose value depends on the side from which a sub-term approaches its limit
     run.cov['search_limits'] = limits_family(run, r, 150 * scale)
+
+    # ======== (3c) interval bounds enclose the values attained
+    run.cov['search_intervals'] = interval_family(run, r, g, 200 * scale)
 
     # ======== (4) recorded calculations: recompute every step, compare values
     files = sorted(glob.glob(os.path.join(REPO, 'integral', 'examples', '*.json')))
